@@ -22,7 +22,9 @@ SPEC = dict(
          "(an account literally called victim@example.org/x), PLAIN/DIGEST authorization identities and from/to in another case; "
          "TWO attacker connections logged in as the same user over a 14-symbol alphabet (same/different resource, conflict, "
          "rebind, stanzas to each other's full and bare jid, leaving, becoming somebody else) to length 3/4; "
-         "an overlap alphabet (a second <auth>/<authenticate> -- PLAIN, DIGEST-MD5, SASL2 -- between an "
+         "ten awkward but legal account names (%1, ops.%2, 100%, a%%b, {0}, backslash, quotes, blank, non-ASCII, 300 characters) logging "
+         "in with PLAIN and DIGEST-MD5 and sending with from absent / own full / own bare; a from/to alphabet (absent, present but "
+         "empty, blank, own bare, own full, somebody else's x 4 'to' x message/presence/iq); an overlap alphabet (a second <auth>/<authenticate> -- PLAIN, DIGEST-MD5, SASL2 -- between an "
          "exchange and its deferred checker reply, replies delivered late and out of order) and SEVERAL ELEMENTS IN ONE WRITE "
          "('e1 + e2 + ...', e.g. after a failing element: response keyed with another account's secret + final response + bind + "
          "message); plus seeded random scripts up to 20 elements, half of them interleaving two connections "
